@@ -272,8 +272,8 @@ fn combine_descriptors(
 ) -> CoordinateOrderDescriptor {
     let mut give = CoordinateOrderDescriptor::default();
     for i in 0..4 {
-        give.mult[i] = from.mult[i] / to.mult[i];
         give.post[i] = from.post.iter().position(|&p| p == to.post[i]).unwrap();
+        give.mult[i] = from.mult[give.post[i]] / to.mult[i];
     }
     give.noop = give.mult == [1.0; 4] && give.post == [0_usize, 1, 2, 3];
     give
